@@ -13,6 +13,7 @@ _FAMILIES = {
     "resync": ["C06"],
     "bisync": ["C14", "C18"],
     "loop": ["C13"],
+    "cluster": ["C19"],
 }
 
 REGISTRY = {}
